@@ -45,7 +45,10 @@ def _unit(draw, accs, reuse_bias=True):
 
 @st.composite
 def _loop_hdr(draw):
-    mode = draw(st.sampled_from(["const", "arg", "arg", "mixed"]))
+    mode = draw(st.sampled_from(["const", "arg", "arg", "mixed", "lbarg"]))
+    if mode == "lbarg":
+        # run-time lower bound, constant upper bound: the trip count (zero included) is decided by the argument alone
+        return dict(lb=["a"], step=["c", draw(st.sampled_from([1, 1, 2, 3]))], ub=["k", draw(st.sampled_from([16, 20, 40]))])
     if mode == "const":
         return dict(lb=["c", draw(st.sampled_from([0, 0, 1, 3]))], step=["c", draw(st.sampled_from([1, 1, 2, 3]))],
                     ub=["c", draw(st.sampled_from(TRIPS)), draw(st.integers(0, 2))])
@@ -76,8 +79,31 @@ def _stmts(accs, depth, max_stmts, calls=True, pure=True, carried=True, unit_wei
             if depth > 1 and carried:
                 kinds += ["tower", "region_value_unit"]
             if depth > 1:
-                kinds += ["loop_if"]
+                kinds += ["loop_if", "if_restore"]
             k = draw(st.sampled_from(kinds))
+            if k == "if_restore":
+                # both branches of a conditional leave field F at the same value A (other fields differ); behind it one unit changes F,
+                # the next one restores it to A; the units share no other value, so nothing else around them is rewritten.  Optionally
+                # behind an opaque call (nothing known on entry) and with further restore/change rounds.
+                a = draw(st.integers(0, len(accs) - 1))
+                nf = len(accs[a][1])
+                refs = list(draw(st.permutations(list(range(0, 12)))))
+                f = draw(st.integers(0, nf - 1))
+                A, D = refs[0], refs[1]
+
+                def fu(own, fv):
+                    v = [own] * nf
+                    v[f] = fv
+                    return ["unit", a, v, None]
+
+                if calls and draw(st.booleans()):
+                    out.append(["call", False, draw(st.integers(0, 1))])
+                out.append(["if", ["p", draw(st.integers(0, 3))], [fu(refs[2], A)], [fu(refs[3], A)]])
+                out.append(fu(refs[4], D))
+                out.append(fu(refs[5], A))
+                if draw(st.booleans()):
+                    out.append(fu(refs[6], draw(st.sampled_from([A, D]))))
+                continue
             if k == "tower":
                 # a loop nest of depth 2..3 on one accelerator with a unit at the head of every level and (optionally) a unit behind
                 # every inner loop: what is known behind an inner loop depends on what the enclosing levels do
@@ -468,6 +494,8 @@ def build(recipe, ty=None, extra_module_ops="", func_name="main") -> Built:
                     names["lb"] = hconst(hdr["lb"][1])
                 if hdr["step"][0] == "c":
                     names["step"] = hconst(hdr["step"][1])
+                if hdr["ub"][0] == "k":
+                    names["ub"] = hconst(hdr["ub"][1])
                 if hdr["ub"][0] == "c":
                     # constant trip count: needs constant lb and step
                     lbv = hdr["lb"][1] if hdr["lb"][0] == "c" else 0
@@ -580,13 +608,16 @@ def input_vector(recipe, built: Built, k: int) -> tuple[list[int], list[str]]:
             lbv = hdr["lb"][1]
         if hdr["step"][0] == "c":
             stv = hdr["step"][1]
+        if hdr["ub"][0] == "k":
+            ubv = hdr["ub"][1]
+            lbv = ubv + (slack % 2) if trips == 0 else ubv - ((trips - 1) * stv + 1 + (slack % stv))
         if info.get("lb"):
             vals[info["lb"]] = lbv
         if info.get("step"):
             vals[info["step"]] = stv
         if info.get("ub"):
             vals[info["ub"]] = (lbv - (slack % 2)) if trips == 0 else lbv + (trips - 1) * stv + 1 + (slack % stv)
-        else:
+        elif hdr["ub"][0] == "c":
             trips = hdr["ub"][1]
         trips_cls.append(trips)
     return [vals[a] for a in built.arg_names], trips_cls
